@@ -85,3 +85,18 @@ Proof.
   cbn [option_map]. destruct (opt_eqb (cur m) (Some id)); [|reflexivity].
   rewrite gen_most_recent_agrees. reflexivity.
 Qed.
+
+(* ---- create_snapshot *)
+Lemma forallb_negb_existsb {A} (f : A -> bool) l : forallb (fun x => negb (f x)) l = negb (existsb f l).
+Proof. induction l as [|x l IH]; simpl; [reflexivity|]. rewrite IH. destruct (f x); reflexivity. Qed.
+
+Lemma gen_create_snapshot_agrees m id t ml cut :
+  gen_create_snapshot m id t ml (Some (match cur m with Some c => c | None => -1 end)) (last_seq m + 1) cut
+  = match create_snapshot m id t ml cut with Some m' => PyOk m' | None => PyRaise end.
+Proof.
+  unfold gen_create_snapshot, create_snapshot, add_snapshot, new_snap. cbv zeta. cbn [sid ts seq].
+  destruct cut as [c|].
+  - rewrite gen_expire_agrees, forallb_negb_existsb, gen_apply_retention_agrees.
+    match goal with |- context [existsb ?f ?l] => destruct (existsb f l) end; reflexivity.
+  - rewrite gen_apply_retention_agrees. cbn [snaps]. rewrite existsb_app. cbn [existsb sid]. rewrite Z.eqb_refl, orb_true_r. reflexivity.
+Qed.
